@@ -28,6 +28,7 @@ type wireCase struct {
 	Transport string  `json:"transport"`
 	ID        int     `json:"case"`
 	Name      string  `json:"name"`
+	Target    string  `json:"name_seen_by_upstream"`
 	Mode      string  `json:"upstream_mode"`
 	DO        bool    `json:"do"`
 	ECS       ecsSpec `json:"ecs"`
@@ -100,7 +101,7 @@ func listenerPhase(r *vkit.Run) {
 	}
 	st, err := stack.New(&stack.Options{
 		Cache: &dnssvc.CacheConfig{Type: dnssvc.CacheTypeECS, ECSCount: 100, NoECSCount: 100},
-		GeoIP: gi, Upstream: rn.upstream, ServerGroups: []*agd.ServerGroup{grp}, FilteringGroups: filteringGroups,
+		GeoIP: gi, FilterStorage: aliasStorage{}, Upstream: rn.upstream, ServerGroups: []*agd.ServerGroup{grp}, FilteringGroups: filteringGroups,
 	})
 	if err != nil {
 		fail("cannot build the stack: " + err.Error())
@@ -234,7 +235,12 @@ func listenerPhase(r *vkit.Run) {
 					id := ti*5000 + rep*100 + ki + 1
 					wc := &wireCase{Transport: tr.name, ID: id, ECS: genKind(trng, w, kind), DO: trng.IntN(4) == 0,
 						Mode: []string{"eq", "scope0", "less", "noopt", "fixed16"}[trng.IntN(5)]}
-					wc.Name = fmt.Sprintf("%s-%d.c05-wire.example.", wc.Mode, id)
+					wc.Target = fmt.Sprintf("%s-%d.c05-wire.example.", wc.Mode, id)
+					wc.Name = wc.Target
+					if ki%3 == 2 {
+						// rewritten by the filter to the target name
+						wc.Name = aliasLabel + wc.Target
+					}
 					var opts [][]byte
 					if wc.ECS.Kind != "none" {
 						opts = append(opts, ecsWire(&wc.ECS))
@@ -325,7 +331,7 @@ func listenerPhase(r *vkit.Run) {
 			if len(wc.Attempts) > 1 {
 				r.Bucket("listener_retried_cases", 1)
 			}
-			ups := byName[strings.ToLower(wc.Name)]
+			ups := byName[strings.ToLower(wc.Target)]
 			wit := func() any {
 				var rs []string
 				for _, m := range msgs {
